@@ -38,6 +38,10 @@ Edits == <<
   [r |-> "namespace-exists", f |-> SvcA(M1("ipc", S("service:nope")))],
   [r |-> "namespace-exists", f |-> SvcA(M1("pid", S("service:off")))],
   [r |-> "namespace-exists", f |-> SvcA(M2("network_mode", S("service:nope"), "networks", Tagged(Null, "reset")))],
+  \* a dangling reference next to a namespace attribute that holds a plain value
+  [r |-> "namespace-exists", f |-> SvcA(M3("network_mode", S("host"), "networks", Tagged(Null, "reset"), "ipc", S("service:nope")))],
+  [r |-> "namespace-exists", f |-> SvcA(M2("ipc", S("shareable"), "pid", S("service:nope")))],
+  [r |-> "namespace-exists", f |-> SvcA(M3("cgroup", S("host"), "pid", S("host"), "uts", S("service:off")))],
   [r |-> "links-exist", f |-> SvcA(M1("links", Sq1(S("nope"))))],
   [r |-> "volumes-from-exists", f |-> SvcA(M1("volumes_from", Sq1(S("nope"))))],
   [r |-> "network-mode-xor-networks", f |-> SvcA(M1("network_mode", S("host")))],
@@ -58,7 +62,8 @@ Edits == <<
   [r |-> "acyclic", f |-> Nest(<<"services", "b">>, M1("depends_on", M1("a", Dep)))],
   [r |-> "acyclic", f |-> SvcA(M1("depends_on", M1("a", Dep)))],
   [r |-> "acyclic", f |-> Nest(<<"services", "b">>, M1("links", Sq1(S("a"))))],
-  [r |-> "acyclic", f |-> Nest(<<"services", "b">>, M1("ipc", S("service:a")))]
+  [r |-> "acyclic", f |-> Nest(<<"services", "b">>, M1("ipc", S("service:a")))],
+  [r |-> "acyclic", f |-> Nest(<<"services", "b">>, M2("ipc", S("host"), "pid", S("service:a")))]
 >>
 \* edits that take two later files: the second refines one element of what the first added
 Edits2 == <<
